@@ -203,6 +203,12 @@ def run(ctx):
 
 
 CORPUS = [
+    # an explicit data_id that equals the DATA of another node: index access resolves data_id before data
+    [({"a": 0, "did": "B"}, []), (1, [])],
+    [({"a": 0, "did": "B"}, [({"a": 2, "did": "B"}, [])]), (1, [])],
+    [({"a": 0, "did": 7}, [(12, [])]), (1, [])],
+    # falsy explicit ids
+    [({"a": 0, "did": 0}, [({"a": 1, "did": ""}, [])]), (6, [({"a": 2, "did": 0}, [])])],
     # 4 clones of "a1" (the res[k:] defect D3 needs >= 2 clones and k >= 1)
     [(0, [(6, [])]), (1, [(6, [])]), (7, [(6, [])]), (6, [])],
     # node_id 7 vs int data 7 (data_id 7): node_id lookup wins
